@@ -1237,6 +1237,17 @@ pub fn gas_probe(r: &mut Rng) -> VmCase {
     }
     if r.chance(0.8) {
         ops.push(COME);
+        // sometimes a second fork in the same run (its children's budget is what the first one left)
+        if r.chance(0.35) {
+            let b2 = *r.pick(&[1i64, 2, 3, 5]);
+            ops.extend([PUSH(b2), COM]);
+            for _ in 0..1 + r.below(3) {
+                ops.extend([PUSH(1), POP]);
+            }
+            if r.chance(0.7) {
+                ops.push(COME);
+            }
+        }
     }
     for _ in 0..r.below(3) {
         ops.extend([PUSH(7), POP]);
